@@ -59,6 +59,7 @@ type Engine struct {
 	rtPath string
 	stats  *Stats
 	logw   io.Writer
+	harnessFn sync.Map
 	overlayJSON string
 	modPath string
 	errorStringType types.Type
@@ -384,4 +385,22 @@ func (eng *Engine) allowed(fn *ssa.Function) bool {
 
 func (eng *Engine) logf(format string, a ...interface{}) {
 	fmt.Fprintf(os.Stderr, format+"\n", a...)
+}
+
+// isHarnessFn reports whether a function comes from a harness or shim file of the overlay.
+func (eng *Engine) isHarnessFn(fn *ssa.Function) bool {
+	if v, ok := eng.harnessFn.Load(fn); ok {
+		return v.(bool)
+	}
+	f := fn
+	for f.Parent() != nil {
+		f = f.Parent()
+	}
+	res := false
+	if f.Pos().IsValid() {
+		name := eng.prog.Fset.Position(f.Pos()).Filename
+		res = strings.Contains(name, "zz_verif_") || strings.Contains(name, "/zzverif/")
+	}
+	eng.harnessFn.Store(fn, res)
+	return res
 }
